@@ -782,7 +782,7 @@ def run_scenarios(aexe, wd, np_, scen, batch):
         script = os.path.join(wd, 'api_%d.txt' % np_)
         open(script, 'w').write('\n'.join(lines) + '\n')
         outp = os.path.join(wd, 'api_%d.out' % np_)
-        rc, so, se = mpirun(np_, [aexe, script, os.path.join(wd, 'api_%d.nc' % np_), outp], timeout=120)
+        rc, so, se = mpirun(np_, [aexe, script, os.path.join(wd, 'api_%d.nc' % np_), outp], timeout=90)
         if rc != 0:
             return None
         allres = [H.parse_out('%s.%d' % (outp, r)) for r in range(np_)]
@@ -796,7 +796,7 @@ def run_scenarios(aexe, wd, np_, scen, batch):
         script = os.path.join(wd, 'api_%d_%d.txt' % (np_, k))
         open(script, 'w').write(sc.text())
         outp = os.path.join(wd, 'api_%d_%d.out' % (np_, k))
-        rc, so, se = mpirun(np_, [aexe, script, os.path.join(wd, 'api_%d_%d.nc' % (np_, k)), outp], timeout=30)
+        rc, so, se = mpirun(np_, [aexe, script, os.path.join(wd, 'api_%d_%d.nc' % (np_, k)), outp], timeout=20)
         res.append([H.parse_out('%s.%d' % (outp, r)) for r in range(np_)] if rc == 0 else None)
         nbad += (rc != 0)
     return res
